@@ -293,7 +293,7 @@ class Unilateral(
         the model using the method :py:meth:`lymph.graph.Representation.set_state`.
         """
         trans_prob = 1
-        for i, lnl in enumerate(self.graph.lnls):
+        for i, lnl in enumerate(self.graph.lnls.values()):
             trans_prob *= lnl.comp_trans_prob(new_state=new_state[i])
             if trans_prob == 0:
                 break
